@@ -95,6 +95,11 @@ type niCase struct {
 	// the statement, returns a proof, the bytes of a statement chosen after the challenge for
 	// which the proof satisfies the sigma relation, and the compiled verifier's verdict on it
 	adaptive func(r *vh.Rng, deriveNoStmt func(a []byte) []byte) (proof, stmt []byte, verdict func(cs ctxSpec) string)
+	// harness-side (rand)Fischlin prover: given the hash-target predicate for (i, e, zBytes)
+	// and the challenge generator for attempt j, returns a proof in which every repetition
+	// hits the target, and for every repetition i a variant in which exactly repetition i
+	// carries a valid sigma transcript that MISSES the target
+	grind func(comp compiler.Name, reps int, hit func(aall []byte, i int, e, z []byte) bool, chal func(j int) (wire, sigma []byte)) (honest []byte, misses [][]byte)
 	// interactive compilers (sigma.Prover/Verifier, zk.Prover/Verifier); "" = as expected
 	runInteractive func(kind string, cs ctxSpec, r *vh.Rng) string
 }
@@ -291,6 +296,52 @@ func mkCase[X sigma.Statement, W sigma.Witness, A sigma.Statement, S sigma.State
 			put("repetition-copied", enc(comp, ca, ce, cz))
 		}
 		return out
+	}
+	c.grind = func(comp compiler.Name, reps int, hit func(aall []byte, i int, e, z []byte) bool, chal func(j int) (wire, sigma []byte)) ([]byte, [][]byte) {
+		as := make([]A, reps)
+		st := make([]S, reps)
+		var aall []byte
+		for i := range as {
+			var err error
+			if as[i], st[i], err = proto.ComputeProverCommitment(x, w); err != nil {
+				return nil, nil
+			}
+			aall = append(aall, as[i].Bytes()...)
+		}
+		es := make([][]byte, reps)
+		zs := make([]Z, reps)
+		missE := make([][]byte, reps)
+		missZ := make([]Z, reps)
+		haveMiss := make([]bool, reps)
+		for i := range as {
+			found := false
+			for j := 0; j < 1<<15 && !(found && haveMiss[i]); j++ {
+				wire, sig := chal(j)
+				z, err := proto.ComputeProverResponse(x, w, as[i], st[i], sig)
+				if err != nil {
+					return nil, nil
+				}
+				if hit(aall, i, wire, z.Bytes()) {
+					if !found {
+						es[i], zs[i], found = wire, z, true
+					}
+				} else if !haveMiss[i] {
+					missE[i], missZ[i], haveMiss[i] = wire, z, true
+				}
+			}
+			if !found || !haveMiss[i] {
+				return nil, nil
+			}
+		}
+		honest := enc(comp, as, es, zs)
+		var misses [][]byte
+		for i := range as {
+			e2 := append([][]byte{}, es...)
+			z2 := append([]Z{}, zs...)
+			e2[i], z2[i] = missE[i], missZ[i]
+			misses = append(misses, enc(comp, as, e2, z2))
+		}
+		return honest, misses
 	}
 	c.runInteractive = func(kind string, cs ctxSpec, r *vh.Rng) string {
 		return runInteractive(kind, proto, x, w, x2, cs, r)
